@@ -1,14 +1,5 @@
 #!/bin/bash
-# Offline setup after a fresh restore: regenerate Gen/*.lean from /repo and build the whole Lean library.
-set -e
+# Offline setup after a fresh restore: regenerate Gen/*.lean from /repo and build the Lean modules of all registered checks.
 cd "$(dirname "$0")"
 mkdir -p evidence replays
-/venv/bin/python -c "
-import sys, os
-sys.path.insert(0, 'tools')
-from lib import framework
-print('extract problems:', framework.extract_all())
-" 2>&1 | grep -v conda.cli.condarc
-cd lean
-lake build 2>&1 | grep -v conda.cli.condarc | tail -n 15
-test "${PIPESTATUS[0]}" -eq 0
+/venv/bin/python tools/setup_build.py 2> >(grep -v conda.cli.condarc >&2)
